@@ -1,9 +1,9 @@
 SPECIFICATION Spec
 CONSTANTS
-  MINNODES = 0
-  MAXSTACK = 99
-  BUDGET = 4
-  FUEL = 300
+  MINNODES = 9
+  MAXSTACK = 3
+  BUDGET = 16
+  FUEL = 600
   MAXINT = 100000
 INVARIANTS TypeOK EnvOK BoundaryOK Emit
 CHECK_DEADLOCK FALSE
